@@ -26,7 +26,7 @@ func init() {
 	vlib.Register(&vlib.Prop{
 		ID:    "C17",
 		Level: "exploration",
-		Cases: func(tier string) int { return vlib.TierN(tier, 2000, 40000) },
+		Cases: func(tier string) int { return vlib.TierN(tier, 2000, 160000) },
 		Rule: "case idx%4 selects the component (0 Forwarder+forwarder.Publisher, 1 FanIn, 2 Requeuer, 3 FanOut); the rest is drawn from the case PRNG: " +
 			"component configuration (forwarder topic default/custom, AckWhenCannotUnwrap, 0-2 pass-through middlewares, own/external router, close timeout; " +
 			"1-4 fan-in source topics; requeuer topic function const/from-metadata(with errors)/from-uuid, delay 0..2ms, own/external router; 1-3 fan-out topics x 0-3 subscriptions, " +
